@@ -14,6 +14,8 @@ never `.hex []`, which is printed `-` like `.none`), `Netbufmon.parseAns (Netbuf
 printing / reading (`Std.Data.String.ToNat` / `ToInt`), hex printing / reading (`Proofs/DsAns.lean`), the 16 hex digits
 of the FNV digest (`hex64_rt`), the `key=value` tokens and the `,` / `:` splitting (`String.split` with a character
 pattern) included.  `run_canon`: every output of `stepOp` on every run from every state is `OutCanon`.
+`verdicts_ok`: `Driver.Netbufmon.step` answers `ok` to the L1 tokens of every line `Driver.Netbuf.step` prints, for
+every sequence of input lines (lines that are not operations included).
 Not covered: the cut of the printed line at ` | ` and at the spaces by `Driver/Loop.loopMon` (`String.splitOn " "`) and
 `tools/vlib.py`; no token contains a space and cutting with `String.split ' '` gives the tokens back (`split_l1`).
 -/
@@ -471,7 +473,8 @@ theorem RecsCanon.append {l : List CbRec} (h : RecsCanon l) {x : CbRec}
 
 theorem appCallback_canon (s : XSt) (st : Int) (recs : List CbRec) (h : RecsCanon recs) :
     RecsCanon (appCallback s st recs).2 := by
-  have key : (∃ x, (appCallback s st recs).2 = recs ++ [x] ∧ ∀ a sh, x = .succ a (some sh) → ShownCanon sh) := by
+  have key : (∃ x, (appCallback s st recs).2 = recs ++ [x] ∧
+      ∀ a sh, x = .succ a (some sh) → ShownCanon sh) := by
     unfold appCallback
     by_cases h0 : (st == 0) = true
     · rw [if_pos h0]
@@ -556,4 +559,52 @@ theorem run_canon (ops : List Op) : ∀ (s : XSt), ∀ o ∈ (runOps s ops).2, O
     · exact step_canon s op
     · exact ih _ o ho
 
+/-! ## the two executables' step functions, line by line -/
+
+/-- `Driver.Netbuf.step` with the printed line replaced by the tokens of its L1 part -/
+def stepToks (s : XSt) (toks : List String) : XSt × List String :=
+  match parseOp toks with
+  | some op => let r := stepOp s op; (r.1, l1Toks r.2)
+  | none => (s, ["bad-op"])
+
+/-- the line `Driver.Netbuf.step` prints is the tokens of `stepToks` joined by single spaces, then the L2 part -/
+theorem step_eq_stepToks (s : XSt) (toks : List String) :
+    (Netbuf.step s toks).1 = (stepToks s toks).1 ∧
+    ∃ l2, (Netbuf.step s toks).2 = " ".intercalate (stepToks s toks).2 ++ l2 ∧
+      (l2 = "" ∨ ∃ t, l2 = " | " ++ t) := by
+  unfold Netbuf.step stepToks
+  cases parseOp toks with
+  | none => exact ⟨rfl, "", by simp [String.intercalate_singleton], Or.inl rfl⟩
+  | some op =>
+    refine ⟨rfl, _, render_eq _, ?_⟩
+    cases l2Str (stepOp s op).2 with
+    | none => exact Or.inl rfl
+    | some t => exact Or.inr ⟨t, rfl⟩
+
+/-- the verdict lines of `pmodel netbufmon` when every operation line is answered with the L1 tokens of the line
+`pmodel netbuf` prints for it (lines that are not operations included) -/
+def verdicts (s : XSt) (m : MSt) : List (List String) → List String
+  | [] => []
+  | toks :: rest =>
+    let r := stepToks s toks
+    let v := Netbufmon.step m toks r.2
+    v.2 :: verdicts r.1 v.1 rest
+
+theorem verdicts_ok (lines : List (List String)) : ∀ (s : XSt) (m : MSt), Sound s m →
+    verdicts s m lines = List.replicate lines.length "ok" := by
+  induction lines with
+  | nil => intro s m _; rfl
+  | cons toks rest ih =>
+    intro s m h
+    unfold verdicts stepToks Netbufmon.step
+    cases hp : parseOp toks with
+    | none =>
+      simp only [List.length_cons, List.replicate_succ, if_true]
+      rw [show verdicts s m rest = _ from ih s m h]
+    | some op =>
+      obtain ⟨m', e, h'⟩ := step_sound s m h op
+      have ha : parseAns (l1Toks (stepOp s op).2) = (stepOp s op).2.ans :=
+        parseAns_l1Toks _ (step_readable s m h op) (step_canon s op)
+      simp only [ha, e, List.length_cons, List.replicate_succ]
+      rw [show verdicts (stepOp s op).1 m' rest = _ from ih _ m' h']
 end Percival.Proofs.NetbufAns
